@@ -279,15 +279,25 @@ def kernel_families():
     }
 
 
-def raised(ctx, fam, pb, db, bs, e, replay):
-    """the batched module raises where every replica evaluates"""
-    ctx.case(f"b|{fam}|raises|{pb}|{db}")
+# observables that contain the log-prior terms.  The known finding `*:param-batch-rank-below-broadcast-rank` is the
+# class: a model WITH priors whose parameter batch rank is smaller than the broadcast (data) batch rank, observed at
+# one of these objectives — and nothing else.
+PRIOR_OBS = ("exact MLL", "ELBO", "PLL")
+
+
+def rank_deficient_prior_cell(fam, what, pb, bs):
+    return fam.endswith("_priors") and what in PRIOR_OBS and len(pb) < len(bs)
+
+
+def raised(ctx, fam, pb, db, bs, e, replay, what=None):
+    """the batched module raises where every non-batched replica evaluates"""
+    ctx.case(f"b|{fam}|{what or 'module'}|raises|{pb}|{db}|{_SALT[0]}")
     ctx.count("b_raised")
-    ctx.notes.setdefault("b_raised", {})[f"{fam}:{pb}:{db}"] = f"{type(e).__name__}: {str(e)[:100]}"
-    key = f"{fam}:raises"
-    if fam.endswith("_priors") and len(pb) < len(bs):
+    ctx.notes.setdefault("b_raised", {})[f"{fam}:{what}:{pb}:{db}"] = f"{type(e).__name__}: {str(e)[:100]}"
+    key = f"{fam}:{what + ':' if what else ''}raises"
+    if rank_deficient_prior_cell(fam, what, pb, bs):
         key += ":param-batch-rank-below-broadcast-rank"
-    ctx.fail(key, f"{fam} param batch {pb}, data batch {db} (broadcast {tuple(bs)}): the batched module raises "
+    ctx.fail(key, f"{fam} param batch {pb}, data batch {db} (broadcast {tuple(bs)}): {what or 'the batched module'} raises "
              f"{type(e).__name__}: {str(e)[:200]} while every non-batched replica evaluates", replay)
 
 
@@ -307,7 +317,7 @@ def each_replica(ctx, fam, what, pb, db, tab, out, make_replica_out, replay):
         want = make_replica_out(pf, df)
         if not close(flat[e], want):
             key = f"{fam}:{what}"
-            if fam.endswith("_priors") and what in ("exact MLL", "ELBO") and len(pb) < len(bs):
+            if rank_deficient_prior_cell(fam, what, pb, bs):
                 key = f"{fam}:{what}:param-batch-rank-below-broadcast-rank"
             ctx.fail(key, f"{fam} param batch {pb}, data batch {db}: {what}[batch element {e}] differs from the "
                      f"non-batched replica (parameter slice {pf}, data slice {df}): {err(flat[e], want)}",
@@ -450,6 +460,13 @@ def part_b_likelihoods(ctx, T, pairs):
             each_replica(ctx, "lik_" + fam, "marginal mean", pb, db, tab, mmean_e, lambda pf, df: rep(pf, df, "mean"), rp)
 
 
+def make_lik(b, prior):
+    import torch
+    import gpytorch
+    kw = {"noise_prior": gpytorch.priors.GammaPrior(1.5, 2.0)} if prior else {}
+    return gpytorch.likelihoods.GaussianLikelihood(batch_shape=torch.Size(b), **kw).double()
+
+
 def _exact_model_cls():
     import gpytorch
 
@@ -458,7 +475,8 @@ def _exact_model_cls():
             import torch
             super().__init__(tx, ty, lik)
             B = torch.Size(b)
-            self.mean_module = gpytorch.means.ConstantMean(batch_shape=B)
+            self.mean_module = gpytorch.means.ConstantMean(
+                batch_shape=B, **({"constant_prior": gpytorch.priors.NormalPrior(0.3, 1.5)} if prior else {}))
             kw = {}
             if prior:
                 kw["lengthscale_prior"] = gpytorch.priors.GammaPrior(2.0, 3.0)
@@ -487,7 +505,7 @@ def part_b_exact(ctx, T, pairs):
             xs = _randn(g, *db, m, D_IN)
 
             def build(b, tx_, ty_):
-                lik = gpytorch.likelihoods.GaussianLikelihood(batch_shape=torch.Size(b)).double()
+                lik = make_lik(b, prior)
                 return Model(tx_, ty_, lik, b, prior=prior).double()
             mod = build(pb, tx, ty)
             randomize(mod, f"exp:{pb}")
@@ -500,16 +518,22 @@ def part_b_exact(ctx, T, pairs):
                     mod.train()
                     out = mod(tx)
                     obs["prior mean"], obs["prior covariance"] = out.mean, out.covariance_matrix
-                    mll = gpytorch.mlls.ExactMarginalLogLikelihood(mod.likelihood, mod)
-                    obs["exact MLL"] = mll(out, ty)
                     mod.eval()
                     post = mod(xs)
                     obs["posterior mean"], obs["posterior covariance"] = post.mean, post.covariance_matrix
                     pred = mod.likelihood(post)
                     obs["predictive covariance"] = pred.covariance_matrix
+                    mod.train()
             except Exception as e:
                 raised(ctx, fam, pb, db, bs, e, rp)
                 continue
+            try:
+                with torch.no_grad(), gpytorch.settings.fast_computations(False, False, False), \
+                        gpytorch.settings.max_cholesky_size(10000), warnings.catch_warnings():
+                    warnings.simplefilter("ignore")
+                    obs["exact MLL"] = gpytorch.mlls.ExactMarginalLogLikelihood(mod.likelihood, mod)(mod(tx), ty)
+            except Exception as e:
+                raised(ctx, fam, pb, db, bs, e, rp, what="exact MLL")
             cache = {}
 
             def rep(pf, df, which, e_holder=[0]):
@@ -549,6 +573,11 @@ def part_b_exact(ctx, T, pairs):
                 each_replica(ctx, fam, what, pb, db, tab, val, mk_out, rp)
 
 
+def OBJECTIVES():
+    import gpytorch
+    return {"ELBO": gpytorch.mlls.VariationalELBO, "PLL": gpytorch.mlls.PredictiveLogLikelihood}
+
+
 def _var_model_cls():
     import gpytorch
 
@@ -559,9 +588,12 @@ def _var_model_cls():
             vd = gpytorch.variational.CholeskyVariationalDistribution(ind.size(-2), batch_shape=B)
             vs = gpytorch.variational.VariationalStrategy(self, ind, vd, learn_inducing_locations=True)
             super().__init__(vs)
-            self.mean_module = gpytorch.means.ConstantMean(batch_shape=B)
+            self.mean_module = gpytorch.means.ConstantMean(
+                batch_shape=B, **({"constant_prior": gpytorch.priors.NormalPrior(0.3, 1.5)} if prior else {}))
             kw = {"lengthscale_prior": gpytorch.priors.GammaPrior(2.0, 3.0)} if prior else {}
-            self.covar_module = gpytorch.kernels.ScaleKernel(gpytorch.kernels.RBFKernel(batch_shape=B, **kw), batch_shape=B)
+            self.covar_module = gpytorch.kernels.ScaleKernel(
+                gpytorch.kernels.RBFKernel(batch_shape=B, **kw), batch_shape=B,
+                **({"outputscale_prior": gpytorch.priors.GammaPrior(2.0, 1.5)} if prior else {}))
 
         def forward(self, x):
             return gpytorch.distributions.MultivariateNormal(self.mean_module(x), self.covar_module(x))
@@ -595,7 +627,8 @@ def part_b_variational(ctx, T, pairs):
             with torch.no_grad():   # a valid (lower-triangular, positive diagonal) variational Cholesky factor
                 cv = mod.variational_strategy._variational_distribution.chol_variational_covar
                 cv.copy_(torch.tril(cv) * 0.3 + torch.eye(mi, dtype=torch.float64))
-            lik = gpytorch.likelihoods.GaussianLikelihood().double()
+            lik = make_lik(pb, prior)          # batched like the model; with a noise prior in the `_priors` family
+            randomize(lik, f"varl:{pb}")
             rp = {"part": "variational", "family": fam, "param_batch": list(pb), "data_batch": list(db), "round": _SALT[0]}
             obs = {}
             try:
@@ -606,10 +639,17 @@ def part_b_variational(ctx, T, pairs):
                     qf = mod(x)
                     obs["q(f) mean"], obs["q(f) covariance"] = qf.mean, qf.covariance_matrix
                     obs["KL"] = mod.variational_strategy.kl_divergence()
-                    obs["ELBO"] = gpytorch.mlls.VariationalELBO(lik, mod, num_data=n)(qf, y)
             except Exception as e:
                 raised(ctx, fam, pb, db, bs, e, rp)
                 continue
+            for oname, cls in OBJECTIVES().items():
+                try:
+                    with torch.no_grad(), gpytorch.settings.fast_computations(False, False, False), \
+                            gpytorch.settings.max_cholesky_size(10000), warnings.catch_warnings():
+                        warnings.simplefilter("ignore")
+                        obs[oname] = cls(lik, mod, num_data=n)(mod(x), y)
+                except Exception as e:
+                    raised(ctx, fam, pb, db, bs, e, rp, what=oname)
             nslice = 1
             for v in pb:
                 nslice *= v
@@ -617,6 +657,8 @@ def part_b_variational(ctx, T, pairs):
             def rep_all(pf, df, e):
                 r = build((), ind.reshape(nslice, mi, D_IN)[pf])
                 load_slice(mod, r, pb, pf)
+                rl = make_lik((), prior)
+                load_slice(lik, rl, pb, pf)
                 o = {}
                 with torch.no_grad(), gpytorch.settings.fast_computations(False, False, False), \
                         gpytorch.settings.max_cholesky_size(10000), warnings.catch_warnings():
@@ -625,11 +667,12 @@ def part_b_variational(ctx, T, pairs):
                     qf = r(data_slice(x, db, df, 2))
                     o["q(f) mean"], o["q(f) covariance"] = qf.mean, qf.covariance_matrix
                     o["KL"] = r.variational_strategy.kl_divergence()
-                    o["ELBO"] = gpytorch.mlls.VariationalELBO(lik, r, num_data=n)(qf, y.reshape(len(pidx), n)[e])
+                    for oname, cls in OBJECTIVES().items():
+                        o[oname] = cls(rl, r, num_data=n)(r(data_slice(x, db, df, 2)), y.reshape(len(pidx), n)[e])
                 return o
             cache = {}
             for what, val in obs.items():
-                ev = {"q(f) mean": 1, "KL": 0, "ELBO": 0}.get(what, 2)
+                ev = {"q(f) mean": 1, "KL": 0, "ELBO": 0, "PLL": 0}.get(what, 2)
                 try:
                     val = val.expand(torch.Size(tuple(bs) + tuple(val.shape[val.dim() - ev:])))
                 except RuntimeError:
@@ -645,28 +688,35 @@ def part_b_variational(ctx, T, pairs):
                 each_replica(ctx, fam, what, pb, db, tab, val, mk_out, rp)
 
 
-def part_b_model_list(ctx, lines, recs):
+def part_b_model_list(ctx, lines, recs, only=None):
+    """IndependentModelList / SumMarginalLogLikelihood over 1-3 members with different n, members non-batched and
+    batched ((2,), (2,3)): outputs are the members' outputs; the sum-MLL has the members' batch shape and its batch
+    element b is the mean over the members of THEIR batch element b (exact rational mean from the driver)."""
     import torch
     import gpytorch
     Model = _exact_model_cls()
-    for k in (1, 2, 3):
-        g = _gen(f"ml:{k}")
+    combos = [(k, mb) for mb in ((), (2,), (2, 3)) for k in (1, 2, 3)]
+    for k, mb in combos:
+        if only is not None and (k, list(mb)) != only:
+            continue
+        g = _gen(f"ml:{k}:{mb}")
         models, xs, ys = [], [], []
         for i in range(k):
             n = 3 + i
-            tx, ty = _randn(g, n, D_IN), _randn(g, n)
-            mdl = Model(tx, ty, gpytorch.likelihoods.GaussianLikelihood().double(), ()).double()
-            randomize(mdl, f"mlp:{k}:{i}")
+            tx, ty = _randn(g, *mb, n, D_IN), _randn(g, *mb, n)
+            mdl = Model(tx, ty, make_lik(mb, False), mb).double()
+            randomize(mdl, f"mlp:{k}:{mb}:{i}")
             models.append(mdl)
             xs.append(tx)
             ys.append(ty)
         ml = gpytorch.models.IndependentModelList(*models)
-        rp = {"part": "model_list", "members": k}
-        with torch.no_grad(), gpytorch.settings.fast_computations(False, False, False), warnings.catch_warnings():
+        rp = {"part": "model_list", "members": k, "member_batch": list(mb), "round": _SALT[0]}
+        with torch.no_grad(), gpytorch.settings.fast_computations(False, False, False), \
+                gpytorch.settings.max_cholesky_size(10000), warnings.catch_warnings():
             warnings.simplefilter("ignore")
             ml.train()
             outs = ml(*xs)
-            ctx.case(f"b|model_list|train|{k}")
+            ctx.case(f"b|model_list|train|{k}|{mb}", nontrivial=k > 1 or bool(mb))
             if len(outs) != k:
                 ctx.fail("model_list:outputs", f"IndependentModelList of {k} members returns {len(outs)} outputs", rp)
             member_vals = []
@@ -674,22 +724,38 @@ def part_b_model_list(ctx, lines, recs):
                 w = mdl(xs[i])
                 if not (torch.allclose(o.mean, w.mean, rtol=1e-13, atol=1e-14)
                         and torch.allclose(o.covariance_matrix, w.covariance_matrix, rtol=1e-13, atol=1e-14)):
-                    ctx.fail("model_list:outputs", f"IndependentModelList output {i} of {k} is not its member's output: "
-                             f"{err(o.covariance_matrix, w.covariance_matrix)}", dict(rp, member=i))
+                    ctx.fail("model_list:outputs", f"IndependentModelList (member batch {mb}) output {i} of {k} is not its "
+                             f"member's output: {err(o.covariance_matrix, w.covariance_matrix)}", dict(rp, member=i))
                 member_vals.append(gpytorch.mlls.ExactMarginalLogLikelihood(mdl.likelihood, mdl)(w, ys[i]))
             smll = gpytorch.mlls.SumMarginalLogLikelihood(ml.likelihood, ml)
-            got = smll(outs, ys)
-            lines.append("summll " + " ".join(C.rat_str(v.item()) for v in member_vals))
-            recs.append(("summll", (k, got.item(), [v.item() for v in member_vals]), rp))
+            try:
+                got = smll(outs, ys)
+            except Exception as e:
+                ctx.case(f"b|sum_mll|raises|{k}|{mb}")
+                ctx.fail("sum_mll:raises", f"SumMarginalLogLikelihood over {k} members with batch {mb} raises "
+                         f"{type(e).__name__}: {str(e)[:160]}", rp)
+                got = None
+            if got is not None:
+                if tuple(got.shape) != tuple(mb):
+                    ctx.case(f"b|sum_mll|shape|{k}|{mb}")
+                    ctx.fail("sum_mll:batch-shape", f"SumMarginalLogLikelihood over {k} members with batch shape {mb} returns "
+                             f"shape {tuple(got.shape)} (value {got.reshape(-1)[:3].tolist()}): each member's MLL has shape {mb}, "
+                             f"the mean over the members must keep it", rp)
+                else:
+                    gf = got.reshape(-1)
+                    for e_ in range(gf.numel()):
+                        vals = [v.reshape(-1)[e_].item() for v in member_vals]
+                        lines.append("summll " + " ".join(C.rat_str(v) for v in vals))
+                        recs.append(("summll", (k, gf[e_].item(), vals, mb, e_), rp))
             ml.eval()
-            test = [_randn(g, 2, D_IN) for _ in range(k)]
+            test = [_randn(g, *mb, 2, D_IN) for _ in range(k)]
             pouts = ml(*test)
-            ctx.case(f"b|model_list|eval|{k}")
+            ctx.case(f"b|model_list|eval|{k}|{mb}", nontrivial=k > 1 or bool(mb))
             for i, (o, mdl) in enumerate(zip(pouts, models)):
                 w = mdl(test[i])
                 if not (close(o.mean, w.mean) and close(o.covariance_matrix, w.covariance_matrix)):
-                    ctx.fail("model_list:outputs", f"IndependentModelList posterior {i} of {k} is not its member's posterior: "
-                             f"{err(o.covariance_matrix, w.covariance_matrix)}", dict(rp, member=i, mode="eval"))
+                    ctx.fail("model_list:outputs", f"IndependentModelList (member batch {mb}) posterior {i} of {k} is not its "
+                             f"member's posterior: {err(o.covariance_matrix, w.covariance_matrix)}", dict(rp, member=i, mode="eval"))
 
 
 # ------------------------------------------------------------------ driver comparison / entry points
@@ -706,16 +772,16 @@ def compare(ctx, lines, recs):
                 if mism <= 4:
                     ctx.broke("correspondence", "L1 tensor algebra vs torch", f"`{line}`\nmodel: {str(r)[:300]}\ntorch: {str(want)[:300]}")
         elif kind == "summll":
-            k, got, vals = data
-            ctx.case(f"b|sum_mll|{k}")
+            k, got, vals, mb, e_ = data
+            ctx.case(f"b|sum_mll|{k}|{mb}|{e_}", nontrivial=k > 1)
             try:
                 exact = float(C.parse_rat(rep))
             except Exception:
                 ctx.broke("correspondence", "summll reply", rep[:200])
                 continue
             if abs(got - exact) > 1e-12 * max(1.0, abs(exact)):
-                ctx.fail("sum_mll:mean", f"SumMarginalLogLikelihood of {k} members returns {got!r}, the mean of the members' "
-                         f"values {vals} is {exact!r}", want)
+                ctx.fail("sum_mll:mean", f"SumMarginalLogLikelihood of {k} members (member batch {mb}, batch element {e_}) returns "
+                         f"{got!r}, the mean of the members' values {vals} is {exact!r}", want)
     ctx.count("model_mismatches_a", mism)
 
 
@@ -816,7 +882,10 @@ def replay(ctx, payload):
     sub = Sub()
     try:
         if c.get("part") in ("model_list",):
-            part_b_model_list(sub, [], [])
+            lines, recs = [], []
+            part_b_model_list(sub, lines, recs, only=(c["members"], c.get("member_batch", [])))
+            if lines:
+                compare(sub, lines, recs)
             return not sub.failures
         pb, db = tuple(c["param_batch"]), tuple(c["data_batch"])
         T = Tables([(pb, db)])
